@@ -32,15 +32,18 @@ def order(ctx):
     p = ctx.p
     side, mode, nl = p["side"], p["mode"], p["levels"]
     name = "ETH-22SEP23-1650-C"
-    mark = 0.0287
-    ins = sym_book(ctx, name, nl if side == "buy" else 2, nl if side == "sell" else 2, mark=mark)
+    # book shapes: the repo's test book (levels 1.7 % apart around 0.0287), a tight book (levels 0.035 % apart: closer than the
+    # 0.1 % order-lookup tolerance) and a cheap option whose levels straddle the price 0.0024 where the fee rule's minimum flips
+    mark, step = {"normal": (0.0287, 0.0005), "tight": (0.0287, 0.00001), "cheap": (0.0020 if side == "buy" else 0.0028, 0.0005)}[p.get("book", "normal")]
+    ins = sym_book(ctx, name, nl if side == "buy" else 2, nl if side == "sell" else 2, mark=mark, step=step)
     cash = ctx.dec("cash", 0, 1000)
     w = DeribitWorld(ctx, [ins], cash=cash, token=p.get("token", "eth"))
     m = w.market
     hold = None
     if p["hold"]:
         hold = _dec(ctx.int_("held", 1, 5000))
-        w.hold(name, hold)
+        # part of what was bought earlier may have been sold again: bought amount != remaining amount
+        w.hold(name, hold, sold=_dec(ctx.int_("sold_earlier", 0, 5000)) if p.get("sold_before") else None)
     n_orders = p.get("orders", 1)
     side_key = "asks" if side == "buy" else "bids"
     book0 = w.book(name, side_key)
@@ -190,5 +193,9 @@ def scenarios(tier):
         out.append(Scenario(f"{side}/usd/level1", order, params=dict(side=side, mode="usd", levels=3, hold=True, limit_level=1), shadows=SHADOWS, entry=(f"DeribitOptionMarket.{side}",), nlsat=False))
         out.append(Scenario(f"{side}/cap/l3", order, params=dict(side=side, mode="cap", levels=3, hold=True), shadows=SHADOWS, entry=(f"DeribitOptionMarket.{side}",), nlsat=False, max_paths=3000, time_budget_s=300))
         out.append(Scenario(f"{side}/market/l2/two_orders", order, params=dict(side=side, mode="market", levels=2, hold=True, orders=2), shadows=SHADOWS, entry=(f"DeribitOptionMarket.{side}",), nlsat=False, max_paths=4000, time_budget_s=400))
+    for side in ("buy", "sell"):
+        out.append(Scenario(f"{side}/market/l2/held_after_earlier_sale", order, params=dict(side=side, mode="market", levels=2, hold=True, sold_before=True), shadows=SHADOWS, entry=(f"DeribitOptionMarket.{side}", "Order.get_average_price"), nlsat=False, max_paths=3000, time_budget_s=300))
+        out.append(Scenario(f"{side}/market/tight_book/two_orders", order, params=dict(side=side, mode="market", levels=3 if tier != "quick" else 2, hold=True, orders=2, book="tight"), shadows=SHADOWS, entry=(f"DeribitOptionMarket.{side}", "get_new_order_list"), nlsat=False, max_paths=4000, time_budget_s=400))
+        out.append(Scenario(f"{side}/market/cheap_book", order, params=dict(side=side, mode="market", levels=3 if tier != "quick" else 2, hold=True, orders=2 if tier != "quick" else 1, book="cheap"), shadows=SHADOWS, entry=(f"DeribitOptionMarket.{side}", "get_trade_fee"), nlsat=False, max_paths=4000, time_budget_s=400))
     out.append(Scenario("buy/market/l2/btc", order, params=dict(side="buy", mode="market", levels=2, hold=False, token="btc"), shadows=SHADOWS, entry=("DeribitOptionMarket.buy",), nlsat=False))
     return out
